@@ -100,7 +100,7 @@ const CURATED: &[(u16, &str)] = &[
 
 fn conv_for(site: Site, kind: u16, msg: &[u8]) -> (Conversation, usize) {
     let cols_t = vec![ColSpec::simple("a", T_LONG, 0), ColSpec::simple("b", T_VAR_STRING, 0)];
-    let row = |i: usize| RowProg { cells: vec![Val::plain(Base::I32(i as i32)), Val::plain(Base::StrRef("x".into()))], form: RowForm::WriteRow };
+    let row = |i: usize| RowProg { cells: vec![Val::plain(Base::I32(i as i32)), Val::plain(Base::StrRef("x".into()))], form: RowForm::WriteRow, offers: vec![] };
     let err = Step::Error { kind, msg: msg.to_vec() };
     let prep = (Cmd::Prepare { text: Blob::text("p") }, Action::Prepare(PrepProg::Reply { id: 1, params: vec![], cols: vec![] }));
     let exec = Cmd::Execute { id: 1, params: vec![], send_types: false, flags: 0, iterations: 1 };
